@@ -281,6 +281,23 @@ func (env *Env) call(e *ECall) TV {
 			return tv
 		}
 		return env.fail("local: unknown variable %q", ns.Val)
+	case "funcval":
+		// funcval("pkg/path::Name"): the function value of a named package-level function of the loaded packages
+		ks, ok := env.strLit(e.Args[0])
+		if !ok {
+			return env.fail("funcval needs a string literal function key")
+		}
+		fn := fc.eng.Funcs[ks.Val]
+		if fn == nil {
+			return env.fail("funcval: no function %q in the loaded packages", ks.Val)
+		}
+		n := "fn_" + mangle(fn.String())
+		fc.declare(n, "Int")
+		if !fc.declared["nz_"+n] {
+			fc.declared["nz_"+n] = true
+			fc.fact("", "(not (= %s 0))", n)
+		}
+		return TV{n, "Int", fn.Signature}
 	case "closureof", "freevar":
 		// closureof(f, "Outer$1"): the function value f is a closure of that anonymous function;
 		// freevar(f, "Outer$1", "name"): the value its captured variable held when the closure was made.
